@@ -278,6 +278,28 @@ fn spaces(thorough: bool) -> Vec<(String, u64, String, Box<dyn Fn(u64, &mut Acc)
         let text = format!("{} {}{:02}:{:02}:{:02}", locals[(i / no) as usize], if o < 0 { '-' } else { '+' }, a / 3600, a / 60 % 60, a % 60);
         case_parse(2, &text, "y-MM-dd HH:mm:ss xxxxx", acc);
     })));
+    // (g) several sub-second fields (parse sums them) and both hour styles, on texts at the end of the day
+    let subs = ["n", "nn", "nnn", "nnnn", "nnnnn"];
+    let mut gpats: Vec<String> = vec![];
+    for a in 0..5 {
+        gpats.push(format!("HH:mm:ss {}", subs[a]));
+        for b in 0..5 {
+            gpats.push(format!("HH:mm:ss {} {}", subs[a], subs[b]).replace("n n", "n.n"));
+            gpats.push(format!("hh:mm:ss a {}.{}", subs[a], subs[b]));
+            for c in 0..5 {
+                gpats.push(format!("HH:mm:ss {}-{}-{}", subs[a], subs[b], subs[c]));
+            }
+        }
+    }
+    let gp = gpats.len() as u64;
+    v.push(("(g) patterns with one to three sub-second fields x times at the end / start / middle of the day x {Time, DateTime}".into(), gp * 6 * 2, "the formatted text of each time is parsed back; Ok values must lie inside the day".into(), Box::new(move |i, acc| {
+        let kind = if i % 2 == 0 { 1 } else { 2 };
+        let nod = [86_399_999_999_999u64, 86_399_500_000_000, 86_399_999_000_000, 43_199_999_999_999, 0, 999_999_999][(i / 2 % 6) as usize];
+        let pat = &gpats[(i / 12) as usize];
+        if let Some(Out::Val(text)) = real_format(kind, 738_000, nod, 0, pat) {
+            case_parse(kind, &text, pat, acc);
+        }
+    })));
     // (e) cron
     let nc = count_strings(11, if thorough { 5 } else { 4 });
     let clen = if thorough { 5 } else { 4 };
